@@ -144,13 +144,61 @@ tokio = { version = "1", features = ["sync"] }
 """
 
 
+# ---- "transparent wrappers are their content" / shadow impls: pairs of types whose three presentations
+# (name, inline, inline_flattened - or its refusal) have to be the same type
+CONTENTS = ["Inner", "DataE", "TagE", "UnitE", "BTreeMap<String, i32>", "Option<Inner>", "Gen<i32>", "(i32, String)", "Vec<Inner>", "i32"]
+WRAPPERS = {"Ref": "&'static §", "Box": "Box<§>", "Arc": "std::sync::Arc<§>", "Rc": "std::rc::Rc<§>", "Cow": "std::borrow::Cow<'static, §>",
+            "Cell": "std::cell::Cell<§>", "RefCell": "std::cell::RefCell<§>", "Mutex": "std::sync::Mutex<§>", "RwLock": "std::sync::RwLock<§>",
+            "Box<Arc>": "Box<std::sync::Arc<§>>"}
+WRAPPERS3 = {"tokio::Mutex": "tokio::sync::Mutex<§>", "tokio::OnceCell": "tokio::sync::OnceCell<§>", "tokio::RwLock": "tokio::sync::RwLock<§>"}
+SHADOWS = [("HashSet", "HashSet<Inner>", "Vec<Inner>"), ("BTreeSet", "BTreeSet<UnitE>", "Vec<UnitE>"), ("slice", "[Inner]", "Vec<Inner>"),
+           ("BTreeMap", "BTreeMap<String, Inner>", "HashMap<String, Inner>"), ("RangeInclusive", "std::ops::RangeInclusive<i32>", "std::ops::Range<i32>")]
+SHADOWS3 = [("IndexSet", "indexmap::IndexSet<Inner>", "Vec<Inner>"), ("IndexMap", "indexmap::IndexMap<String, Inner>", "HashMap<String, Inner>"),
+            ("heapless::Vec", "heapless::Vec<Inner, 4>", "Vec<Inner>"), ("Bytes", "bytes::Bytes", "Vec<u8>"), ("BytesMut", "bytes::BytesMut", "Vec<u8>"),
+            ("serde_json::Map", "serde_json::Map<String, Inner>", "HashMap<String, Inner>")]
+
+
+def pair_rows(third):
+    rows = [("%s of %s" % (w, c), t.replace("§", c), c) for w, t in (WRAPPERS3 if third else WRAPPERS).items() for c in CONTENTS]
+    return rows + [("%s (shadow)" % n, a, b) for n, a, b in (SHADOWS3 if third else SHADOWS)]
+
+
+def pair_units(third):
+    units = []
+    for n, (name, a, b) in enumerate(pair_rows(third)):
+        units.append(corpus.Unit("PA%d" % n, "pub type PA%d = %s;" % (n, a), [], serde=False, meta={"pair": name}))
+        units.append(corpus.Unit("PB%d" % n, "pub type PB%d = %s;" % (n, b), [], serde=False, meta={"pair": name}))
+    return units
+
+
+def judge_pairs(third, obs, v, acc):
+    for n, (name, a, b) in enumerate(pair_rows(third)):
+        ia, ib = obs["PA%d" % n]["info"], obs["PB%d" % n]["info"]
+        for which in ("name", "inline", "inline_flattened"):
+            ra, rb = ia[which], ib[which]
+            if "ok" not in ra or "ok" not in rb:
+                # a type that cannot be flattened refuses in both forms
+                if ("ok" in ra) != ("ok" in rb):
+                    v.fail({"prop": PROP, "row": name, "tag": "wrapper_differs_from_content", "which": which}, {"wrapper": ra, "content": rb, "types": [a, b]})
+                acc["pairs"] += 1
+                continue
+            try:
+                ta, tb = tsparse.strip(tsparse.parse_type(ra["ok"])), tsparse.strip(tsparse.parse_type(rb["ok"]))
+            except tsparse.TsSyntaxError as e:
+                v.fail({"prop": PROP, "row": name, "tag": "type_does_not_parse", "which": which}, {"texts": [ra["ok"], rb["ok"]], "error": str(e)})
+                continue
+            acc["records"].append({"kind": "same", "decls": [], "root": ta, "other": tb, "json": {"k": "null"}, "accepted": True, "reser": {"k": "null"}})
+            acc["meta"].append((name, which, "same", ra["ok"], rb["ok"]))
+            acc["pairs"] += 1
+
+
 def build_units3():
     units = bindlib.helper_units()
     for n, (name, ty, vals, de, users) in enumerate(ROWS3):
         serde = name not in NOSERDE3
         units.append(corpus.Unit("M%d" % n, "pub type M%d = %s;" % (n, ty), vals if serde else [], serde=serde, deser=de and serde, meta={"row": name, "ty": ty, "users": users}))
         units.append(corpus.Unit("E%d" % n, "#[derive(TS)] pub struct E%d { pub f: %s }" % (n, ty), [], serde=False, meta={"depsof": n}))
-    return units
+    return units + pair_units(True)
 
 
 def build_units():
@@ -159,7 +207,7 @@ def build_units():
         u = corpus.Unit("L%d" % n, "pub type L%d = %s;" % (n, ty), vals, serde=True, deser=de, meta={"row": name, "ty": ty, "users": users})
         units.append(u)
         units.append(corpus.Unit("D%d" % n, "#[derive(TS)] pub struct D%d { pub f: %s }" % (n, ty), [], serde=False, meta={"depsof": n}))
-    return units
+    return units + pair_units(False)
 
 
 def judge_rows(rows, prefix, dprefix, c, obs, env, v, acc):
@@ -207,7 +255,7 @@ def judge_rows(rows, prefix, dprefix, c, obs, env, v, acc):
 def run(tier):
     t0 = time.time()
     v = vlib.Verdicts(PROP)
-    acc = {"records": [], "meta": [], "ndeps": 0}
+    acc = {"records": [], "meta": [], "ndeps": 0, "pairs": 0}
     c = corpus.Corpus("builtins", build_units(), features=("serde-compat", "serde-json-impl"))
     obs = c.observe()
     env = bindlib.base_env(obs)
@@ -216,23 +264,28 @@ def run(tier):
     if c.rejected:
         raise ToolError("rows of the builtin table do not compile: %s" % json.dumps(c.rejected)[:1500])
     judge_rows(ROWS, "L", "D", c, obs, env, v, acc)
+    judge_pairs(False, obs, v, acc)
     c3 = corpus.Corpus("builtins3p", build_units3(), features=FEATURES3, extra_deps=DEPS3)
     obs3 = c3.observe()
     if c3.rejected:
         raise ToolError("third-party rows do not compile: %s" % json.dumps(c3.rejected)[:1500])
     judge_rows(ROWS3, "M", "E", c3, obs3, env, v, acc)
+    judge_pairs(True, obs3, v, acc)
     records, meta = acc["records"], acc["meta"]
     bad, tool, a = bindlib.adjudicate(records, env, "c12")
     for i in sorted(bad):
         m = meta[i - 1]
+        if m[2] == "same":
+            v.fail({"prop": PROP, "row": m[0], "tag": "wrapper_differs_from_content", "which": m[1]}, {"wrapper": m[3], "content": m[4]})
+            continue
         v.fail({"prop": PROP, "row": m[0], "tag": "value_not_in_type" if m[2] == "ser" else "inhabitant_rejected", "which": m[1]},
                {"json": m[3], "type": m[4], "serde": m[5] if len(m) > 5 else None})
     rc = v.finish()
     cov = {"states": a.distinct, "transitions": a.generated, "traces_validated_against_impl": len(records) - len(tool),
            "samples": [{"row": m[0], "kind": m[2], "json": m[3], "type": m[4]} for m in meta[:: max(1, len(meta) // 8)][:8]],
            "rows": len(ROWS) + len(ROWS3), "third_party_rows": len(ROWS3), "serialized_values": sum(1 for m in meta if m[2] == "ser"),
-           "witnesses": sum(1 for m in meta if m[2] == "wit"), "dependency_rows": acc["ndeps"], "exhaustive": False,
-           "rule": "one row per supported std / serde_json / feature-gated third-party type (and compositions to depth 2-3); per row: real name() and inline() parsed; every representative value's real serde_json output and up to 12 type-directed witnesses judged by TLC; dependencies of `struct D { f: Row }` compared with the user types among the arguments"}
+           "witnesses": sum(1 for m in meta if m[2] == "wit"), "dependency_rows": acc["ndeps"], "wrapper_content_comparisons": acc["pairs"], "exhaustive": False,
+           "rule": "one row per supported std / serde_json / feature-gated third-party type (and compositions to depth 2-3); per row: real name() and inline() parsed; every representative value's real serde_json output and up to 12 type-directed witnesses judged by TLC; dependencies of `struct D { f: Row }` compared with the user types among the arguments; every transparent wrapper (13) x 10 contents and every shadow impl: name / inline / inline_flattened equal to the content's"}
     vlib.write_evidence(PROP, tier, "model_checking", cov,
                         ["arrays carry values only up to N = 32 (serde's limit); N = 64 / 65 are checked by name only",
                          "string-like types with a value grammar (addresses, dates, uuids, urls, versions) are checked for shape only: serialized values, no witnesses",
